@@ -2256,7 +2256,8 @@ def probe_delete_through_end_namespace():
         left = {ns: call(lambda: srt(kpath(p) for p in h.conn.EnumerateInstanceNames('A_Loose', namespace=ns)))
                 for ns in sorted(h.m)}
         if any(v != ('ok', []) for v in left.values()):
-            only_c = left == {'root/a': ('ok', []), 'root/b': ('ok', []), 'root/c': ('ok', [rec.key('root/c', h.m['root/c'].cls['a_loose'])])}
+            only_c = left == {'root/a': ('ok', []), 'root/b': ('ok', []),
+                              'root/c': ('ok', [rec.key('root/c', h.m['root/c'].cls['a_loose'])])}
             viol(K_ORPHAN if only_c else 'delete-through-end-namespace-diverges', steps=h.steps,
                  what='DeleteInstance (and ModifyInstance) of a cross-namespace association work out the other copies '
                       'from the namespaces of the reference values only, so the copy in the namespace the association '
